@@ -43,7 +43,7 @@ func (c16) Assumptions() []string {
 }
 
 var c16States = []string{"empty", "first-policy", "established", "staging-ahead", "policy-ahead", "diverged", "attestations"}
-var c16Ops = []string{"push", "annotate", "propagation", "stage", "apply", "approve", "reconcileStaging"}
+var c16Ops = []string{"push", "annotate", "propagation", "stage", "apply", "approve", "reconcileStaging", "autoskip", "approveAgain"}
 
 func (c16) Generate(r *core.Rand, tier string, idx uint64) *core.Case {
 	c := &core.Case{Property: "C16", Engine: "simstore", Config: map[string]int{}, Flags: map[string]bool{}}
@@ -137,6 +137,23 @@ func (c16) Generate(r *core.Rand, tier string, idx uint64) *core.Case {
 			return nil
 		}
 		t = world.Op{Kind: "reconcileStaging", Actor: 0}
+	case "autoskip":
+		if len(pushes) < 2 {
+			return nil
+		}
+		// a history rewrite on main first, so that there is something to skip
+		b.add(world.Op{Kind: "push", Actor: devs[0], Ref: mainRef, Base: "root", Files: map[string]string{"rewritten": "x"}, CommitKey: devs[0], EntryKey: -2})
+		t = world.Op{Kind: "autoskip", Actor: devs[0], Ref: mainRef}
+	case "approveAgain":
+		if len(pushes) == 0 {
+			return nil
+		}
+		// a second signature on an existing authorization (or a first one if none exists)
+		b.add(world.Op{Kind: "approve", Actor: devs[0], Approve: &world.ApproveSpec{Ref: mainRef, FromOp: 0, ToOp: pushes[len(pushes)-1], Signers: []int{devs[0]}}})
+		t = world.Op{Kind: "approve", Actor: devs[len(devs)-1], Approve: &world.ApproveSpec{Ref: mainRef, FromOp: 0, ToOp: pushes[len(pushes)-1], Signers: []int{devs[len(devs)-1]}}}
+	}
+	if c16Ops[op] == "annotate" && len(pushes) >= 2 && r.Chance(0.5) {
+		t.Targets = []int{pushes[0], pushes[len(pushes)-1]}
 	}
 	c.Config["target"] = b.add(t)
 	c.Config["state"] = state
@@ -357,6 +374,13 @@ func (d c16) Execute(c *core.Case) *core.Result {
 		}
 	}
 	fired := map[sched.FaultType]int{}
+	rollbacks := 0
+	w.Env.OnEvent = func(ev *sched.Event) {
+		if ev.Desc.Op == top.ID && (ev.Desc.Kind == "ResetDueToError" || ev.Desc.Kind == "DeleteReference") {
+			rollbacks++
+		}
+	}
+	defer func() { w.Env.OnEvent = nil }()
 	for _, plan := range plans {
 		prepare()
 		w.Env.Faults = []sched.Fault{plan}
@@ -480,7 +504,7 @@ func (d c16) Execute(c *core.Case) *core.Result {
 		"trace_calls": len(trace), "fault_plans": len(plans), "trace_head": headStrings(trace, 12),
 		"verdict_before": v0, "verdict_after": v1,
 	}
-	res.Stat("probe:rollback_reset_executed", boolInt(containsKind(kinds, "ResetDueToError")))
+	res.Stat("probe:rollback_executed_after_fault", boolInt(rollbacks > 0))
 	return res
 }
 
